@@ -807,6 +807,87 @@ class DataFrame:
     def iat(self):
         return _IAt(self)
 
+    # --- elementwise operators and row / column reductions (frame op scalar | same-labelled frame)
+    def _map(self, f):
+        return DataFrame._make({c: [f(v) for v in vals] for c, vals in self._cols.items()}, list(self._index))
+
+    def _zip(self, o, f, rev=False):
+        if isinstance(o, DataFrame):
+            if list(o._cols.keys()) != list(self._cols.keys()) or o._index != self._index:
+                raise ModelGap("DataFrame op DataFrame with different labels")
+            return DataFrame._make({c: [(f(b, a) if rev else f(a, b)) for a, b in zip(self._cols[c], o._cols[c])]
+                                    for c in self._cols}, list(self._index))
+        if isinstance(o, (Series, np.ndarray, list, tuple, dict)):
+            raise ModelGap("DataFrame op %s" % type(o).__name__)
+        return self._map((lambda a: f(o, a)) if rev else (lambda a: f(a, o)))
+
+    def __neg__(self):
+        return self._map(lambda v: -v)
+
+    def __abs__(self):
+        return self._map(abs)
+
+    abs = __abs__
+
+    def __add__(self, o):
+        return self._zip(o, np._add)
+
+    def __radd__(self, o):
+        return self._zip(o, np._add, True)
+
+    def __sub__(self, o):
+        return self._zip(o, _sub_checked)
+
+    def __rsub__(self, o):
+        return self._zip(o, _sub_checked, True)
+
+    def __mul__(self, o):
+        return self._zip(o, np._mul)
+
+    def __rmul__(self, o):
+        return self._zip(o, np._mul, True)
+
+    def __truediv__(self, o):
+        return self._zip(o, np._div)
+
+    def __rtruediv__(self, o):
+        return self._zip(o, np._div, True)
+
+    def __lt__(self, o):
+        return self._zip(o, lambda a, b: a < b)
+
+    def __le__(self, o):
+        return self._zip(o, lambda a, b: a <= b)
+
+    def __gt__(self, o):
+        return self._zip(o, lambda a, b: a > b)
+
+    def __ge__(self, o):
+        return self._zip(o, lambda a, b: a >= b)
+
+    def __invert__(self):
+        return self._map(np._not)
+
+    def _reduce(self, fn, axis):
+        if axis in (1, 'columns'):
+            rows = [[self._cols[c][i] for c in self._cols] for i in range(len(self._index))]
+            return Series([fn(np.array(r)) if r else f64('nan') for r in rows], list(self._index))
+        if axis in (0, 'index', None):
+            return Series([fn(np.array(v)) if v else f64('nan') for v in self._cols.values()], list(self._cols.keys()))
+        raise ValueError("No axis named %r" % (axis,))
+
+    def max(self, axis=0):
+        return self._reduce(np.nanmax, axis)
+
+    def min(self, axis=0):
+        return self._reduce(np.nanmin, axis)
+
+    def sum(self, axis=0):
+        return self._reduce(np.sum, axis)
+
+    def mean(self, axis=0):
+        return self._reduce(np.mean, axis)
+
     def head(self, n=5):
         return self._take(list(range(len(self._index)))[:n])
 
